@@ -100,6 +100,10 @@ def replay_history(item):
     try:
         eng_url = 'sqlite:///' + os.path.join(root, 'db.sqlite')
         engine = create_engine(eng_url)
+        # a bystander: another table of the same database whose name merely BEGINS like the dumped table's - no dump may touch it
+        with engine.begin() as con:
+            con.execute(text('create table tbl_keep (x integer)'))
+            con.execute(text('insert into tbl_keep values (41)'))
         kf = 0
         for n, (d, lg) in enumerate(zip(c['hist'], c['log']), start=1):
             rows = [dict(k=r['k'], **cells(r['v'])) for r in d['rows']]
@@ -164,6 +168,13 @@ def replay_history(item):
                     got2 = sorted(got2, key=canon)
                 if not same_json(got2, want_tbl):
                     return dict(ok=False, why='second table after dump %d (%s) differs' % (n, d['mode']), got=got2, want=want_tbl)
+            try:
+                with engine.connect() as con:
+                    keep = [tuple(r) for r in con.execute(text('select x from tbl_keep'))]
+            except Exception as e:
+                keep = 'gone: %s' % str(e)[:60]
+            if keep != [(41,)]:
+                return dict(ok=False, why='dump %d (%s) touched another table of the database (tbl_keep)' % (n, d['mode']), got=keep)
             flags = [r.get('upd') for r in down]
             if flags != lg['flags']:
                 return dict(ok=False, why='updated flags of dump %d (%s) differ' % (n, d['mode']), got=flags, want=lg['flags'])
